@@ -403,6 +403,19 @@ CORPUS = [
     ("fixed-F31", "query Q { e }", {}, "enum E { OK mro _name_ } input I { e: E = mro } type Query { e(i: I): E }"),
 ]
 
+# every naming site (result field, input field, argument + variable, enum value and enum default) given ONE name that is
+# a keyword / pydantic attribute on its own, behind a leading underscore (trimmed for class fields) or in front of a
+# trailing one (the suffix the generator itself appends), with and without snake-casing: must generate and load
+HAZARD_WORDS = ["class", "from", "None", "import", "copy", "model_dump", "json", "validate", "self", "async"]
+for _w in HAZARD_WORDS:
+    for _n in (_w, "_" + _w, _w + "_"):
+        for _snake in (True, False):
+            CORPUS.append((f"ok-hazard-name-{_n}-{'snake' if _snake else 'plain'}",
+                           f"query Q(${_n}: Int, $i: In) {{ t({_n}: ${_n}, i: $i) {{ {_n} e }} }}",
+                           {"convert_to_snake_case": _snake},
+                           f"enum E {{ A {_n} }} input In {{ {_n}: Int q: E = {_n} }} type T {{ {_n}: Int e: E }} "
+                           f"type Query {{ t({_n}: Int, i: In): T }}"))
+
 
 def corpus_cases() -> list:
     from ..gen.frag_scen import MIXINS_PY as S_MIXINS
